@@ -374,6 +374,10 @@ def _composite_hexagonal_aperture(rings, segment_diameter, segment_separation, x
             local_coords.append((xx-center[0], yy-center[1]))
 
             local_mask = regular_polygon(6, rseg, xx, yy, center=center, rotation=segment_angle)
+            # with zero separation neighbouring hexagons share an edge; a sample
+            # that lies exactly on it would be claimed by both of them.  It belongs
+            # to the segment that claimed it first, so that no sample is in two segments
+            local_mask &= ~mask[local_window]
             local_masks.append(local_mask)
             mask[local_window] |= local_mask
 
